@@ -55,7 +55,10 @@ CtxClause(S, o, e) ==
         ELSE IF o.op = "spawn" /\ e.c = o.child THEN "ChildSeesSnapshot"
         ELSE IF o.op \in ReleaseOps THEN "ReleaseIsLocal"
         ELSE "NoLeakBetweenContexts")
-  ELSE IF ~ProxyOK(S, e) THEN "ProxyResolvesInAccessingContext"
+  ELSE IF ~ProxyOK(S, e) THEN
+       (IF \E p \in SeqSet(e.prox) : p.k \in PKinds /\ Bound(S, e.c, p.k) = NoBox
+                                      /\ (p.truthy \/ ~p.unb \/ p.id # 0 \/ p.cur # 0)
+        THEN "ProxyReportsUnbound" ELSE "ProxyResolvesInAccessingContext")
   ELSE "ok"
 
 RECURSIVE FirstBad(_, _, _, _)
